@@ -625,5 +625,50 @@ fn listenerless_subtree(ctx: &mut Ctx) {
 			drop((sp, child, send, listener));
 		}
 	}
+	// spatial tracks nested in spatial tracks, each bound to its OWN listener at a different place: every track on the path
+	// contributes the attenuation for the distance to its own listener (linear curve over 1..11, strength 0: no panning)
+	let att = |d: f64| -> f64 {
+		let rel = (d.clamp(1.0, 11.0) - 1.0) / 10.0;
+		let db = -60.0 * rel;
+		if db <= -60.0 { 0.0 } else { 10f64.powf(db / 20.0) }
+	};
+	let sp = |b: SpatialTrackBuilder| b.distances((1.0, 11.0)).attenuation_function(Some(kira::Easing::Linear)).spatialization_strength(0.0);
+	for (la, lb, outer_pos, inner_pos) in [(0.0f32, 20.0f32, 3.0f32, 22.0f32), (0.0, 20.0, 2.0, 8.0), (0.0, 5.0, 30.0, 6.0), (0.0, 20.0, 4.0, 4.0)] {
+		for via_plain in [false, true] {
+			for ibs in [1usize, 4] {
+				ctx.evals += 1;
+				ctx.traces += 1;
+				let mut m = rig::manager(SR, ibs, rig::caps(4), MainTrackBuilder::new());
+				let a = m.add_listener(glam::Vec3::new(la, 0.0, 0.0), glam::Quat::IDENTITY).expect("listener");
+				let b = m.add_listener(glam::Vec3::new(lb, 0.0, 0.0), glam::Quat::IDENTITY).expect("listener");
+				let mut outer = m.add_spatial_sub_track(&a, glam::Vec3::new(outer_pos, 0.0, 0.0), sp(SpatialTrackBuilder::new())).expect("outer");
+				let mut keep: Vec<Box<dyn std::any::Any>> = vec![];
+				let mut inner = if via_plain {
+					let mut mid = outer.add_sub_track(TrackBuilder::new()).expect("mid");
+					let t = mid.add_spatial_sub_track(&b, glam::Vec3::new(inner_pos, 0.0, 0.0), sp(SpatialTrackBuilder::new())).expect("inner");
+					keep.push(Box::new(mid));
+					t
+				} else {
+					outer.add_spatial_sub_track(&b, glam::Vec3::new(inner_pos, 0.0, 0.0), sp(SpatialTrackBuilder::new())).expect("inner")
+				};
+				let _p = inner.play(ProbeSoundData::new((0.5, 0.0), (0.5, 0.0))).expect("play");
+				let mut out = vec![];
+				for n in [3usize, 4, 5] {
+					rig::render_stereo(&mut m, n, &mut out);
+				}
+				let want = 0.5 * att((inner_pos - lb).abs() as f64) * att((outer_pos - la).abs() as f64);
+				if let Some(i) = out.iter().position(|f| (f.0 as f64 - want).abs() > 1e-5 || (f.1 as f64 - want).abs() > 1e-5) {
+					ctx.fail(
+						"a spatial track nested in another spatial track is not attenuated by the distance to its own listener (x its ancestor's attenuation to the ancestor's listener) :: nested spatial tracks, two listeners",
+						format!("listener A at x={}, listener B at x={}; outer spatial track (listener A) at x={}, inner spatial track (listener B{}) at x={}; linear attenuation over 1..11, strength 0; DC 0.5; internal buffer {}: frame {} = {:?}, expected {}", la, lb, outer_pos, if via_plain { ", below a plain track" } else { "" }, inner_pos, ibs, i, out[i], want),
+					);
+				} else if want != 0.0 {
+					ctx.nontrivial_extra += 1;
+				}
+				ctx.state(hash64(&("nested spatial", la as i32, lb as i32, outer_pos as i32, inner_pos as i32, via_plain, ibs)));
+				drop((inner, outer, keep, a, b));
+			}
+		}
+	}
 	ctx.outcome(hash64(&"listenerless"));
 }
